@@ -1293,6 +1293,7 @@ static FJ_ALWAYS_INLINE int run_paged_loop_impl(MemoryObject* self, PyObject* re
     uint64_t ip = start_ip, ops = 0, ring_writes = 0;
     uint64_t word_address, op_offset, op_slot, f, j;
     uint64_t* op_words; /* the hot lane's cached words; NULL marks the slow lanes */
+    uint64_t op_valid_end = 0; /* the fast valid range's end of the op's page, captured with op_words */
     uint64_t* op_flat_jump = NULL;
     uint64_t cold_word; /* out-param for the cold-path reads, so f/j stay in registers */
     uint64_t inner_left;
@@ -1335,6 +1336,7 @@ static FJ_ALWAYS_INLINE int run_paged_loop_impl(MemoryObject* self, PyObject* re
                 goto cold_op_slow;
             }
             op_words = self->page_cache_words[op_slot];
+            op_valid_end = self->page_cache_valid_end[op_slot];
             f = op_words[op_offset];
         flip_word_ready:
 
@@ -1378,7 +1380,9 @@ static FJ_ALWAYS_INLINE int run_paged_loop_impl(MemoryObject* self, PyObject* re
                     goto memory_or_python_error;
                 }
             } else if (op_words) {
-                if (op_offset + 1 >= self->page_cache_valid_end[op_slot]) {
+                /* op_valid_end was captured with op_words at the fetch: the flip above may have
+                   evicted the op's page from its (direct-mapped) cache slot */
+                if (op_offset + 1 >= op_valid_end) {
                     goto cold_jump_word_slow;
                 }
                 j = op_words[op_offset + 1];
